@@ -24,7 +24,8 @@ def prepare(scen, root, ctx):
 
     files = []
     for k, stage in enumerate(scen["stages"], 1):
-        cfg = GenericCommandConfiguration()
+        # a stage may have its own teardown command (only settable in the stage's configuration file)
+        cfg = GenericCommandConfiguration(**({"teardown_command": "hookprobe teardown"} if scen.get("stage_teardown") else {}))
         for j in stage:
             cfg.add_job(
                 GenericCommandParameters(
@@ -127,6 +128,13 @@ class PipeSim(Sim):
                     running = sorted(j for (j, _n) in self.running_jobs.values() if j in self.jobs)
                     if (noout or running) and not self.rows_unknown:
                         self.viol("C15", "stage-before-previous-outcomes", f"stage {k} is being submitted while jobs {noout} of stage {k - 1} have no outcome (still running: {running}) in a fault-free run")
+                # ... and its completion processing is over: the stage's teardown command, which JADE runs before it sets the
+                # completion flag, has run
+                if self.scen.get("stage_teardown") and self.ff and not self.faults_injected and not self.killed_nodes_n() and self.stage == k - 1:
+                    nt = sum(1 for h in self.hooks_seen if h["kind"] == "teardown" and h["epoch"] == self.epoch)
+                    self.teardown_checks = getattr(self, "teardown_checks", 0) + 1
+                    if nt < 1:
+                        self.viol("C15", "stage-before-previous-teardown", f"stage {k} is being configured before the teardown command of stage {k - 1} has run: stage {k - 1} is not finished")
             for kk in range(1, k):
                 if kk not in self.stage_submit_count:
                     self.viol("C15", "stage-skipped", f"stage {k} submitted but stage {kk} never was")
@@ -195,6 +203,7 @@ class PipeSim(Sim):
         res["obs"] = (res.get("obs") or 0) + self.obs_prev
         res["stages"] = self.nstages
         res["stages_submitted"] = len(self.stage_submit_count)
+        res["teardown_checks"] = getattr(self, "teardown_checks", 0)
         res["next_stage_cmds"] = sum(len(v) for v in self.next_stage_cmds.values())
         res["pipeline_complete"] = getattr(self, "pipeline_complete", None)
         res["stage_resubmitted"] = bool(getattr(self, "stage_resubmitted", False))
